@@ -45,6 +45,7 @@ type spath struct {
 	stack []*sframe
 	steps int
 	notes map[string]int // per-path counters for the hooks
+	visits map[*ssa.BasicBlock]int
 }
 
 type soutcome struct {
@@ -109,9 +110,12 @@ func (e *sengine) val(fr *sframe, v ssa.Value) iv {
 }
 
 func (p *spath) fork() *spath {
-	n := &spath{steps: p.steps, notes: map[string]int{}}
+	n := &spath{steps: p.steps, notes: map[string]int{}, visits: map[*ssa.BasicBlock]int{}}
 	for k, v := range p.notes {
 		n.notes[k] = v
+	}
+	for k, v := range p.visits {
+		n.visits[k] = v
 	}
 	arrs := map[*[]iv]*[]iv{}
 	for _, fr := range p.stack {
@@ -207,6 +211,15 @@ func (e *sengine) run(p *spath) {
 					e.enterBlock(fr, fr.blk.Succs[1])
 				}
 				continue
+			}
+			// an undecided condition: both ways, but a loop whose condition stays undecided is unrolled at most
+			// three times per path (further iterations meet the same abstract state)
+			if p.visits == nil {
+				p.visits = map[*ssa.BasicBlock]int{}
+			}
+			p.visits[fr.blk]++
+			if p.visits[fr.blk] > 3 {
+				return
 			}
 			q := p.fork()
 			qfr := q.stack[len(q.stack)-1]
